@@ -187,7 +187,7 @@ def gen_spec(rng, kind=None, n=None, rkind=None, tref_mode=None):
         tref = hi
     spec = {'kind': kind, 'href': href, 'sref': sref, 'pts': L.shuffled(rng, pts), 'tref': tref, 'range': r}
     if kind != 'raw' and rng.random() < 0.3:
-        spec['via_update'] = rng.choice([True, 'range'])      # reached in two merge steps (narrower range and other Cp values first)
+        spec['via_update'] = rng.choice(L.WAYS)      # reached in two merge steps (narrower range and other Cp values first)
     return spec
 
 
